@@ -36,6 +36,9 @@ func (m *MPLS) LayerType() gopacket.LayerType { return LayerTypeMPLS }
 type ProtocolGuessingDecoder struct{}
 
 func (ProtocolGuessingDecoder) Decode(data []byte, p gopacket.PacketBuilder) error {
+	if len(data) == 0 {
+		return errors.New("Unable to guess protocol of empty packet data")
+	}
 	switch data[0] {
 	// 0x40 | header_len, where header_len is at least 5.
 	case 0x45, 0x46, 0x47, 0x48, 0x49, 0x4a, 0x4b, 0x4c, 0x4d, 0x4e, 0x4f:
